@@ -1,7 +1,7 @@
 CONSTANTS
   MaxJunk = 3
   Fixed = TRUE
-  PrefixJSONAccepted = FALSE
+  PrefixJSONAccepted = TRUE
 SPECIFICATION Spec
 INVARIANT Correct
 PROPERTY Terminates
